@@ -19,8 +19,9 @@ ASSUMPTIONS = ["hashlib.sha1 and os.stat are the independent oracles; wire forma
 
 def plan(tier):
     if tier == "quick":
-        return [("debug", 8, dict(nsets=12, nlists=60, maxfile=1 << 20))]
-    return [("debug", 16, dict(nsets=300, nlists=1300, maxfile=4 << 20)), ("release", 2, dict(nsets=60, nlists=300, maxfile=4 << 20))]
+        return [("debug", 16, dict(nsets=20, nlists=100, maxfile=1 << 20))]
+    return [("debug", 16, dict(nsets=300, nlists=1300, maxfile=4 << 20)), ("release", 2, dict(nsets=60, nlists=300, maxfile=4 << 20)),
+            ("miri", 4, dict(nsets=2, nlists=6, maxfile=3000, small=True))]
 
 
 NAME_ALPHA = "abcdefghijklmnopqrstuvwxyzABCDEFGHIJKLMNOPQRSTUVWXYZ0123456789_-. "
@@ -47,15 +48,19 @@ def rand_name(rng, used):
 def shard(ctx):
     rng, P = ctx.rng, ctx.params
     lens = [n for n in range(301) if n % ctx.nshards == ctx.index]
+    if P.get("small"):
+        lens = lens[::8]
     for i in range(P["nsets"]):
         fiin_case(ctx, rng, lens if i == 0 else None, P["maxfile"])
     for i in range(P["nsets"] * 2):
         fiin_parse_case(ctx, rng)
     # tables whose entry count crosses a width or power-of-two boundary (u8, 2^10, u16; 32 KiB / 64 KiB of records)
     big = [255, 256, 257, 341, 342, 682, 683, 1023, 1024, 1025, 4097] + ([65535, 65537] if ctx.tier != "quick" else [])
+    if P.get("small"):
+        big = []
     for n in [n for i, n in enumerate(big) if i % ctx.nshards == ctx.index]:
         fiin_parse_case(ctx, rng, n)
-    if ctx.index == 1 % ctx.nshards:
+    if ctx.index == 1 % ctx.nshards and not P.get("small"):
         fiin_case(ctx, rng, [rng.choice([0, 1, 55, 64, 100]) for _ in range(rng.choice([257, 300]))], P["maxfile"])
     for i in range(P["nlists"]):
         plist_case(ctx, rng)
